@@ -382,3 +382,6 @@ add("mg_free_dfcc", ["C18"], ["tu/merger_free_dfcc.c"], "h_merger_free_dfcc", mo
 add("rd_iterinit_dfcc", ["C03", "C02"], ["tu/reader_dfcc.c"], "h_reader_init_iter_dfcc", mode="dfcc", enforce="reader_iter_init/reader_iter_init__spec",
     replace=RD_DFCC_REPL + ["my_calloc/my_calloc__cap", "free/free__cap"], unwind=12, timeout=600, strength="U", functions=["reader_iter_init", "get_block_at_index"],
     assumptions=["mtbl/block.c functions and get_block replaced by contracts (as in rd_next_dfcc / rd_seek_dfcc); base case of the block-identity invariant: the constructor used by get / get_prefix / get_range establishes it"])
+add("rd_iter_ctor_dfcc", ["C03", "C01"], ["tu/reader_dfcc.c"], "h_reader_iter_ctor_dfcc", mode="dfcc", enforce="reader_iter/reader_iter__spec",
+    replace=RD_DFCC_REPL + ["my_calloc/my_calloc__cap", "free/free__cap", "mtbl_iter_init/mtbl_iter_init__cap"], unwind=12, timeout=600, strength="U", functions=["reader_iter", "get_block_at_index"],
+    assumptions=["mtbl/block.c functions and get_block replaced by contracts; the plain iterator's constructor establishes the block-identity invariant and wires seek / next / free"])
